@@ -21,10 +21,17 @@ import (
 	"errors"
 	"fmt"
 	"io"
+	"sync"
 
 	"github.com/gauss-project/aurorafs/pkg/boson"
+	"github.com/gauss-project/aurorafs/pkg/encryption"
 	"github.com/gauss-project/aurorafs/pkg/file"
 	"github.com/gauss-project/aurorafs/pkg/file/joiner"
+	"github.com/gauss-project/aurorafs/pkg/file/pipeline"
+	pbmt "github.com/gauss-project/aurorafs/pkg/file/pipeline/bmt"
+	encw "github.com/gauss-project/aurorafs/pkg/file/pipeline/encryption"
+	"github.com/gauss-project/aurorafs/pkg/file/pipeline/hashtrie"
+	pstore "github.com/gauss-project/aurorafs/pkg/file/pipeline/store"
 	"github.com/gauss-project/aurorafs/pkg/storage"
 	"verifharness/hx"
 )
@@ -118,6 +125,10 @@ type jop struct {
 }
 
 type jcase struct {
+	Lift bool  `json:"lift,omitempty"` // file of N identical chunks + Tail bytes built through the real writer stages
+	Enc  bool  `json:"enc,omitempty"`  // lift: encrypted (64-byte references, branching 4096, real decrypting store)
+	N    int64 `json:"n,omitempty"`
+	Tail int64 `json:"tail,omitempty"`
 	Size int64 `json:"size"`
 	Seed int64 `json:"seed"`
 	Flt  fault `json:"fault"`
@@ -139,16 +150,28 @@ func coqZ(v int64) string { return hx.CoqZ(v) }
 
 func main() {
 	run := hx.Start("C07", "Aurora.C07.Corr",
-		"sequences of ReadAt/Read/Seek on the real joiner over a synthetic lazy store: file sizes 0, 1, around 256 KiB and its multiples, around 2 GiB (8192 chunks), around 16 TiB and random up to 2^60; offsets around chunk / subtree boundaries, the end, beyond the end; buffers with cap in {len, len+1, 2 len, len+64}; seeks with the three whences incl. out-of-range and overflowing offsets; optional faulty chunk; non-trivial = a read that crosses a chunk boundary, has cap > len, or follows a seek; distinct by (size, seed, fault, ops)")
+		"sequences of ReadAt/Read/Seek on the real joiner over a synthetic lazy store: file sizes 0, 1, around 256 KiB and its multiples, around 2 GiB (8192 chunks), around 16 TiB and random up to 2^60; offsets around chunk / subtree boundaries, the end, beyond the end; buffers with cap in {len, len+1, 2 len, len+64}; seeks with the three whences incl. out-of-range and overflowing offsets; optional faulty chunk; lift corpus: real stored trees of identical chunks above 1 GiB (encrypted, 64-byte references through the real decrypting store, branching 4096) and 2 GiB (plain) read around every level boundary; non-trivial = a read that crosses a chunk boundary, has cap > len, or follows a seek; distinct by (size, seed, fault, ops)")
 	r := run.R
 	ctx := context.Background()
 
 	doCase := func(jc jcase, toCoq bool) {
-		st := &synStore{seed: jc.Seed, flt: jc.Flt}
+		var st storage.Getter = &synStore{seed: jc.Seed, flt: jc.Flt}
+		rootRef := enc(0, jc.Size)
+		content := func(o int64) byte { return fb(jc.Seed, o) }
+		if jc.Lift {
+			jc.Size = jc.N*CS + jc.Tail
+			ls, ref, lerr := liftUpload(ctx, jc.Enc, int(jc.N), int(jc.Tail))
+			if lerr != nil {
+				run.Violate(hx.Violation{Sig: "lift:upload-error", Detail: lerr.Error(), Case: jc})
+				return
+			}
+			st, rootRef = ls, ref
+			content = func(o int64) byte { return liftByte(jc.N, o) }
+		}
 		var j file.Joiner
 		var size int64
 		var err error
-		panicked, msg := hx.Guard(func() { j, size, err = joiner.New(ctx, st, storage.ModeGetRequest, boson.NewAddress(enc(0, jc.Size))) })
+		panicked, msg := hx.Guard(func() { j, size, err = joiner.New(ctx, st, storage.ModeGetRequest, boson.NewAddress(rootRef)) })
 		fl := "NoFault"
 		switch jc.Flt.Kind {
 		case 1:
@@ -156,7 +179,7 @@ func main() {
 		case 2:
 			fl = hx.CoqApp("BigSpan", coqZ(jc.Flt.A), coqZ(jc.Flt.N))
 		}
-		key := fmt.Sprintf("%d|%d|%v|%v", jc.Size, jc.Seed, jc.Flt, jc.Ops)
+		key := fmt.Sprintf("%d|%d|%v|%v|%v|%v", jc.Size, jc.Seed, jc.Flt, jc.Ops, jc.Lift, jc.Enc)
 		if panicked {
 			run.Violate(hx.Violation{Sig: "new:panic", Detail: msg, Case: jc})
 			return
@@ -257,7 +280,7 @@ func main() {
 							lim = o.Len
 						}
 						for k := 0; k < lim; k++ {
-							if full[k] != fb(jc.Seed, at+int64(k)) {
+							if full[k] != content(at+int64(k)) {
 								run.Violate(hx.Violation{Sig: "readat:content", Detail: where + fmt.Sprintf(": byte %d differs from the content", k), Case: jc})
 								break
 							}
@@ -325,6 +348,9 @@ func main() {
 		coq := ""
 		if toCoq {
 			coq = hx.CoqApp("CJoin", coqZ(jc.Size), coqZ(jc.Seed), fl, hx.CoqList(steps, "op * obs"))
+			if jc.Lift {
+				coq = hx.CoqApp("CLift", hx.CoqBool(jc.Enc), coqZ(jc.N), coqZ(jc.Tail), hx.CoqList(steps, "op * obs"))
+			}
 		}
 		run.AddCase(coq, jc, key, nontrivial)
 		run.Hist(fmt.Sprintf("size~2^%d", log2(jc.Size)))
@@ -346,6 +372,39 @@ func main() {
 	doCase(jcase{Size: 0, Seed: 2, Ops: []jop{{Kind: "readat", Len: 4, Cap: 8, Off: 0}, {Kind: "read", Len: 4, Cap: 4}, {Kind: "seek", Off: 0, Whence: 2}, {Kind: "seek", Off: 1, Whence: 0}}}, true)
 	doCase(jcase{Size: 3*CS + 17, Seed: 3, Ops: []jop{{Kind: "readat", Len: 20, Cap: 33, Off: CS - 7}, {Kind: "seek", Off: 2*CS - 3, Whence: 0}, {Kind: "read", Len: 5, Cap: 10}, {Kind: "read", Len: 5, Cap: 5},
 		{Kind: "seek", Off: -(1 << 63), Whence: 2}, {Kind: "seek", Off: 1<<63 - 1, Whence: 1}, {Kind: "seek", Off: 5, Whence: 7}, {Kind: "seek", Off: -1, Whence: 0}, {Kind: "read", Len: 3, Cap: 3}}}, true)
+
+	// ---- lift corpus (every seed): level boundaries of real two-/three-level trees, plain and encrypted
+	for _, encd := range []bool{true, false} {
+		br := BR
+		if encd {
+			br = BR / 2
+		}
+		for _, sh := range []struct{ n, tail int64 }{{br, 1}, {br + 1, 0}, {br + 1, 777}, {2*br + 3, 0}} {
+			size := sh.n*CS + sh.tail
+			bd := br * CS
+			var ops []jop
+			for _, o := range []int64{bd - 100, bd - 1, bd, bd + 1, bd - CS - 3, bd + CS - 5, 2*bd - 7, size - 50, size, size + 1} {
+				if o < 0 {
+					continue
+				}
+				l := r.Pick([]int{1, 16, 64, 200})
+				if o == bd-100 {
+					l = 4096
+				}
+				c := l
+				if r.Chance(1, 3) {
+					c = l + 1 + r.Intn(40)
+				}
+				ops = append(ops, jop{Kind: "readat", Len: l, Cap: c, Off: o})
+			}
+			ops = append(ops, jop{Kind: "seek", Off: bd - 10, Whence: 0}, jop{Kind: "read", Len: 30, Cap: 30}, jop{Kind: "read", Len: 40, Cap: 64},
+				jop{Kind: "seek", Off: 5, Whence: 2}, jop{Kind: "read", Len: 10, Cap: 10}, jop{Kind: "seek", Off: CS - 3, Whence: 1}, jop{Kind: "read", Len: 8, Cap: 8})
+			for k := 0; k < 3; k++ {
+				ops = append(ops, jop{Kind: "readat", Len: 32, Cap: 32, Off: int64(r.U64()>>1) % size})
+			}
+			doCase(jcase{Lift: true, Enc: encd, N: sh.n, Tail: sh.tail, Ops: ops}, true)
+		}
+	}
 
 	sizes := func() int64 {
 		switch r.Intn(10) {
@@ -526,4 +585,81 @@ func log2(v int64) int {
 		n++
 	}
 	return n / 4 * 4
+}
+
+// ---------------------------------------------------------------- "lift": real stored trees above 1 GiB
+
+type liftStore struct {
+	mu sync.Mutex
+	m  map[string][]byte
+}
+
+func (s *liftStore) Put(_ context.Context, _ storage.ModePut, chs ...boson.Chunk) ([]bool, error) {
+	s.mu.Lock()
+	defer s.mu.Unlock()
+	for _, c := range chs {
+		s.m[string(c.Address().Bytes())] = append([]byte{}, c.Data()...)
+	}
+	return make([]bool, len(chs)), nil
+}
+func (s *liftStore) Get(_ context.Context, _ storage.ModeGet, a boson.Address) (boson.Chunk, error) {
+	s.mu.Lock()
+	defer s.mu.Unlock()
+	d, ok := s.m[string(a.Bytes())]
+	if !ok {
+		return nil, storage.ErrNotFound
+	}
+	return boson.NewChunk(a, d), nil
+}
+
+func liftByte(n, o int64) byte {
+	if o < n*CS {
+		return byte(1 + (o%CS+8)%251)
+	}
+	return byte(7 + (o-n*CS+8)%251)
+}
+
+// liftUpload stores a file of n identical full chunks plus an optional shorter tail through the real
+// (Encryption ->) BMT -> Store -> HashTrie stages with the feeder left out: the repeated chunk passes
+// the stages once and its (span, ref, key) is handed to the hash-trie writer n-1 more times.
+func liftUpload(ctx context.Context, enc bool, n, tail int) (*liftStore, []byte, error) {
+	st := &liftStore{m: map[string][]byte{}}
+	var tw, top pipeline.ChainWriter
+	if enc {
+		short := func() pipeline.ChainWriter {
+			return encw.NewEncryptionWriter(encryption.NewChunkEncrypter(), pbmt.NewBmtWriter(pstore.NewStoreWriter(ctx, st, storage.ModePutUpload, nil)))
+		}
+		tw = hashtrie.NewHashTrieWriter(boson.ChunkSize, boson.Branches/2, boson.HashSize+encryption.KeyLength, short)
+		top = encw.NewEncryptionWriter(encryption.NewChunkEncrypter(), pbmt.NewBmtWriter(pstore.NewStoreWriter(ctx, st, storage.ModePutUpload, tw)))
+	} else {
+		short := func() pipeline.ChainWriter {
+			return pbmt.NewBmtWriter(pstore.NewStoreWriter(ctx, st, storage.ModePutUpload, nil))
+		}
+		tw = hashtrie.NewHashTrieWriter(boson.ChunkSize, boson.Branches, boson.HashSize, short)
+		top = pbmt.NewBmtWriter(pstore.NewStoreWriter(ctx, st, storage.ModePutUpload, tw))
+	}
+	chunkOf := func(size int, fill byte) *pipeline.PipeWriteArgs {
+		d := make([]byte, 8+size)
+		binary.LittleEndian.PutUint64(d[:8], uint64(size))
+		for i := 8; i < len(d); i++ {
+			d[i] = fill + byte(i%251)
+		}
+		return &pipeline.PipeWriteArgs{Data: d, Span: append([]byte(nil), d[:8]...)}
+	}
+	f := chunkOf(int(CS), 1)
+	if err := top.ChainWrite(f); err != nil {
+		return nil, nil, err
+	}
+	for i := 1; i < n; i++ {
+		if err := tw.ChainWrite(&pipeline.PipeWriteArgs{Ref: f.Ref, Span: f.Span, Key: f.Key}); err != nil {
+			return nil, nil, err
+		}
+	}
+	if tail > 0 {
+		if err := top.ChainWrite(chunkOf(tail, 7)); err != nil {
+			return nil, nil, err
+		}
+	}
+	ref, err := top.Sum()
+	return st, ref, err
 }
